@@ -294,6 +294,57 @@ example : Function.Injective (id : Bytes → Bytes) ∧
     Records.LeaseFits (Records.hashLease id ⟨1, List.replicate 32 7, List.replicate 32 9, 5, none⟩) :=
   ⟨fun _ _ h => h, by decide⟩
 
+/-- **renewal keeps a lease record decodable to the same lease**: decode → `renew(e)` → encode → decode
+    yields the same owner and the same *stored* secrets (cleartext in v1, the single hash in v2 — the
+    record read back is packed as it is, never hashed again) with the new expiration time.  Together
+    with `lease_v2_decode_encode` this means the real secret is still recognised after any number of
+    renewals. -/
+theorem lease_renew_roundtrip (b : Bytes) (stored : Records.Lease) (e : Int)
+    (hdec : Records.fromImmutable b = some stored) (he : 0 ≤ e) (he2 : e.toNat < 256 ^ 4) :
+    ∃ b', Records.toImmutable (Records.renew stored e) = some b' ∧
+      Records.fromImmutable b' = some { stored with expire := e } := by
+  obtain ⟨_, hfit, hnid⟩ := Records.toImmutable_fromImmutable b stored hdec
+  have hfit' : Records.LeaseFits (Records.renew stored e) := by
+    obtain ⟨h1, h2, _, _, h5, h6⟩ := hfit
+    exact ⟨h1, h2, he, he2, h5, h6⟩
+  obtain ⟨b', hb', _, hd'⟩ := Records.fromImmutable_toImmutable (Records.renew stored e) hfit'
+  refine ⟨b', hb', ?_⟩
+  rw [hd']
+  cases stored
+  simp_all [Records.renew]
+
+theorem lease_renew_roundtrip_mutable (b : Bytes) (stored : Records.Lease) (e : Int)
+    (hdec : Records.fromMutable b = some stored) (he : 0 ≤ e) (he2 : e.toNat < 256 ^ 4) :
+    ∃ b', Records.toMutable (Records.renew stored e) = some b' ∧
+      Records.fromMutable b' = some { stored with expire := e } := by
+  obtain ⟨hre, hfit⟩ := Records.toMutable_fromMutable b stored hdec
+  have hfit' : Records.LeaseFits (Records.renew stored e) := by
+    obtain ⟨h1, h2, _, _, h5, h6⟩ := hfit
+    exact ⟨h1, h2, he, he2, h5, h6⟩
+  -- the node id read back has 20 bytes
+  cases hn : stored.nodeid with
+  | none => simp [Records.toMutable, hn] at hre
+  | some nid =>
+    have hl : nid.length = 20 := by
+      have hb92 : b.length = 92 := by
+        by_cases h : b.length = 92
+        · exact h
+        · rw [(Records.fromMutable_none_iff b).mpr h] at hdec; simp at hdec
+      simp only [Records.fromMutable, Struct.unpack, hb92, Struct.size, Records.mutLeaseFields,
+        Struct.Field.size, ↓reduceIte, Struct.unpackFields, Struct.unpackField, Option.some.injEq] at hdec
+      subst hdec
+      simp only [Option.some.injEq] at hn
+      subst hn
+      simp; omega
+    obtain ⟨b', hb', _, hd'⟩ := Records.fromMutable_toMutable (Records.renew stored e) nid hfit'
+      (by simp [Records.renew, hn]) hl
+    exact ⟨b', hb', by rw [hd']; simp [Records.renew, hn]⟩
+
+example : Records.renewCycle false
+    ((Records.toImmutable ⟨1, List.replicate 32 7, List.replicate 32 9, 5, none⟩).getD []) [6, 7]
+    = [Records.toImmutable ⟨1, List.replicate 32 7, List.replicate 32 9, 6, none⟩,
+       Records.toImmutable ⟨1, List.replicate 32 7, List.replicate 32 9, 7, none⟩] := by decide
+
 /-! ### share-container headers -/
 
 /-- **immutable container header** (`>LLL`): the version and a zero lease count are read back; the
